@@ -75,23 +75,16 @@ structure Inv (s : State) : Prop where
   podsNodup : (Tbl.keys s.pods).Nodup
   vPodsNodup : (Tbl.keys s.vPods).Nodup
 
-/-- the side conditions of the moves (decidable, evaluated in the state the move starts from):
-    * `createPod`: non-empty names;
-    * `bind`: the pod lister shows the incarnation the API server has (else: known finding
-      bind-with-stale-lister-stores-old-uid), and no record of another incarnation is left under the pod's key
-      (else: known finding stale-record-of-same-key-releases-live-pod-ip);
-    * `reload`: the new configuration still contains the addresses of the live bound pods (the property says so)
-      and the injected fault, if any, hits the config-map read or the store list, not a store delete. -/
+/-- the side conditions of the moves (decidable, evaluated in the state the move starts from) - the scope the
+    property itself states:
+    * `createPod`: non-empty namespace, pod name and owner name (what the API server guarantees);
+    * `bind`: the request carries the pod UID (`args.PodUID`, the scheduler always sends it);
+    * `reload`: the new configuration still contains the addresses of the live bound pods ("no configuration reload
+      that still contains the IP" is the property's own quantifier) and the injected fault, if any, hits the
+      config-map read or the store list, not one of ConfigurePool's store deletes. -/
 def assumed (s : State) : Move → Bool
   | .createPod ns name kind app _ _ _ _ => ns ≠ "" && name ≠ "" && (kind == .bare || app ≠ "")
-  | .bind ns name _ _ _ _ _ =>
-    match Tbl.get s.vPods (ns, name) with
-    | none => true
-    | some l =>
-      (match Tbl.get s.pods (ns, name) with
-        | some q => q.uid == l.uid
-        | none => true) &&
-      s.alloc.all (fun e => e.2.key ≠ keyOf l || e.2.uid == 0 || e.2.uid == l.uid)
+  | .bind _ _ uid _ _ _ _ => uid != 0
   | .reload pools fault =>
     decide (fault ≤ 2) && s.pods.all (fun e => e.2.finished || e.2.handed.all (fun h => configured pools h.ip))
   | _ => true
